@@ -46,6 +46,22 @@ def oracle(toks, line):
         r = 0 if tgt == "null" else int(tgt)
         back = "null" if r == 0 else f"inB:{r}"
         return line == (f"ok rep={r} back={back}" if pos == "cell" else f"ok rep={r},0 back={back},null")
+    if toks[0] == "pfoot":
+        # footprint of a pointer store on the 32-bit-pointer ABI: exactly the 4 bytes of the guest pointer change
+        pos, tgt = toks[1], toks[3]
+        r = 0 if tgt == "null" else int(tgt)
+        CELL = 0x100
+        img = bytearray(PAT)
+        def w4(off, v):
+            img[off:off + 4] = v.to_bytes(4, "little")
+        if pos == "cell": w4(CELL, r)
+        elif pos == "cellnull": w4(CELL, 0)
+        elif pos in ("arrel", "field"): w4(CELL + 8, r)
+        elif pos in ("arrelnull", "fieldnull"): w4(CELL + 8, 0)
+        elif pos == "arrwhole": w4(CELL, 0); w4(CELL + 4, r); w4(CELL + 8, r); w4(CELL + 12, 0)
+        elif pos == "structwhole": img[CELL] = ord("x"); w4(CELL + 4, 7); w4(CELL + 8, r)
+        else: return None
+        return line == "ok win=" + bytes(img[CELL - 8:CELL + 24]).hex()
     if toks[0] == "starr":
         shape, off = toks[2], int(toks[3])
         elt, n = {"int2x3": ("int", 6), "long2x3": ("long", 6), "char3x5": ("char", 15), "long3": ("long", 3), "ushort4": ("ushort", 4)}[shape]
@@ -144,6 +160,13 @@ def run(chk):
     ops = ["load cav 0 long 100", "load cavrange 0 long 100", "load cav 0 ulong 65532"] + list(dict.fromkeys(ops))
     for o in ["null", "1", "8", "4660", "65528", "65535"] + [str(rng.randrange(1, BLK)) for _ in range(6)]:
         ops += [f"pstoreb cell {o}", f"pstoreb arrwhole {o}"]
+    # footprint of pointer stores (guest pointers are 4 bytes on this ABI, the host's 8): data, null constant, null tainted
+    for sb in (0, 1):
+        for pos in ("cell", "arrel", "field", "arrwhole", "structwhole"):
+            for o in ["null", "1", "4660", "65535", str(rng.randrange(1, BLK))]:
+                ops.append(f"pfoot {pos} {sb} {o}")
+        for pos in ("cellnull", "arrelnull", "fieldnull"):
+            ops.append(f"pfoot {pos} {sb} null")
     res = core.differential(chk, ops, binp, oracle, signature=signature, label="typed stores and loads")
     kinds = {}
     for o in ops:
@@ -157,7 +180,7 @@ def run(chk):
                        "other live sandbox's region against the model's memory; loads by dereference, UNSAFE_unverified, copy_and_verify (pointer), copy_and_verify_range, p[1] against the "
                        "reference decoding of exactly guestSize bytes")
     chk.add_samples([{"op": o, "impl": a[:80], "model": b[:80]} for o, a, b in list(zip(ops, res["impl"], res["model"]))[::max(1, len(ops) // 6)]])
-    chk.cov["trusted_base"] += ["C07: bool loads from non-canonical bytes are undefined behaviour of the C++ object model and are not judged; float/double/pointer/struct footprints are covered by C08/C04",
+    chk.cov["trusted_base"] += ["C07: bool loads from non-canonical bytes are undefined behaviour of the C++ object model and are not judged; float/double/struct footprints are covered by C08; pointer stores: `pfoot` (32 bytes around the cell)",
                                 "theorems C07_frame/C07_roundtrip/C07_decode cover integer types under every well-formed ABI"]
 
 
